@@ -274,6 +274,9 @@ func runPath(i *interpreter, fn *ssa.Function, prefix []choice, opt Options, sh 
 				outcome = "inconclusive: " + r.reason
 				sh.mu.Lock()
 				key := r.reason
+				if !strings.Contains(key, "call stack") {
+					key += i.panicStack
+				}
 				if len(key) > 1500 {
 					key = key[:1500]
 				}
